@@ -1035,7 +1035,9 @@ ConcurrentTransientHashSet<T, H, E>::end() const noexcept {
 template <typename T, typename H, typename E>
 inline ABSL_ATTRIBUTE_ALWAYS_INLINE bool
 ConcurrentTransientHashSet<T, H, E>::empty() const noexcept {
-  return _head.table.empty();
+  // 默认构造的占位头表始终为空，此时元素都在后续子表中
+  return _head.table.empty() &&
+         _head.next.load(::std::memory_order_acquire) == nullptr;
 }
 
 template <typename T, typename H, typename E>
